@@ -420,7 +420,9 @@ pub fn run(args: &Args) {
             let c = current.lock().unwrap();
             if !c.1.is_empty() && c.2.elapsed().as_secs() >= 5 {
                 let mut f = file.lock().unwrap();
-                let _ = writeln!(f, "{}", json!({"ev":"case","idx":c.0,"what":c.1,"outcome":"hang","detail":"no result within 5 s","post":"none","alloc":0,"size":0}));
+                let kind = c.1.split(':').nth(if c.1.starts_with("shape:") { 99 } else { 1 }).unwrap_or("").to_string();
+                let kind = if kind.is_empty() { c.1.split("\"fmt\":\"").nth(1).and_then(|x| x.split('"').next()).unwrap_or("?").to_string() } else { kind };
+                let _ = writeln!(f, "{}", json!({"ev":"case","idx":c.0,"what":c.1,"kind":kind,"outcome":"hang","detail":"no result within 5 s","post":"none","alloc":0,"size":0}));
                 let _ = f.flush();
                 std::process::exit(3);
             }
